@@ -56,6 +56,12 @@ OPS = ([("trust", h, p, c) for h in HOSTS for p in PORTS for c in CERTS] + [("ve
        + [("revoke", h, p) for h in HOSTS for p in PORTS] + [("revoke_by_hostname", h) for h in HOSTS] + [("clear",)] + [("get_host_info", HOSTS[0], PORTS[0])])
 
 
+# look-alike host names (SQL wildcards, case, trailing dot/space): a second small universe on one port
+HOSTS2 = ("gemini-server.lan", "gemini_server.lan", "gemini%.lan", "Gemini-Server.lan", "gemini-server.lan.")
+OPS2 = ([("trust", h, 1965, c) for h in HOSTS2 for c in CERTS] + [("verify", h, 1965, c) for h in HOSTS2 for c in CERTS]
+        + [("revoke", h, 1965) for h in HOSTS2] + [("revoke_by_hostname", h) for h in HOSTS2])
+
+
 def apply_model(model, op):
     """-> (new model, expected return value or a predicate marker)"""
     m = dict(model)
@@ -383,6 +389,11 @@ def bank(focus=None, seed=0, deep=False):
             got = TOFUDatabase(path).verify("a.example", 1965, cert("A"))
             if got != (False, "changed"):
                 return dict(confirmed=True, input=dict(pinned=near, presented=good, variant=variant), observed=dict(violated=[f"verify returned {got!r} for a pin that differs from the presented fingerprint"]), clause=clause)
+        for hist in itertools.product(OPS2, repeat=2):
+            tried += 1
+            r = check_history(d, hist)
+            if r:
+                return dict(confirmed=True, input=dict(history=r["history"]), observed=dict(violated=[r["violated"]]), clause=clause)
         rnd = random.Random(seed)
         for _ in range(600 if deep else 120):
             tried += 1
